@@ -338,6 +338,10 @@ class PathEnum:
         self.unroll = unroll
         self.truncated_loops = 0
         self.tails = set(id(x) for x in tail_leaves(fn["body"]))
+        # the leaves of `return <match/if/block>` are values of the function as well
+        for x in walk_no_closures(fn["body"]):
+            if x.get("k") == "Ret" and x.get("e") is not None and x["e"].get("k") in ("Match", "If", "Block"):
+                self.tails |= set(id(y) for y in tail_leaves(x["e"]))
 
     # a path state is (events tuple, assumptions dict-as-tuple)
     def paths(self):
@@ -631,9 +635,16 @@ def tail_leaves(n):
 
 def path_value(ev):
     """The expression node whose value the path returns (tail leaf or `return e`), or None."""
-    for e in reversed(ev):
+    for i in range(len(ev) - 1, -1, -1):
+        e = ev[i]
         if e.kind == "ret":
-            return e.node.get("e")
+            val = e.node.get("e")
+            if val is not None and val.get("k") in ("Match", "If", "Block"):
+                leaves = set(id(y) for y in tail_leaves(val))
+                for e2 in reversed(ev[:i]):
+                    if e2.kind == "tail" and id(e2.node) in leaves:
+                        return e2.node
+            return val
         if e.kind == "tail":
             return e.node
     return None
